@@ -13,6 +13,7 @@ by `c12_spec_decides`) evaluated by the Lean driver on the implementation's own 
 from __future__ import annotations
 
 import hashlib
+import importlib
 import itertools
 import json
 import random
@@ -23,7 +24,6 @@ import time as _time
 import lib
 import proto
 import real  # noqa: F401  (puts <repo>/src on sys.path)
-import rbacx.rebac.local as L
 
 # ----------------------------------------------------------------------------- injected clock
 
@@ -60,12 +60,41 @@ class FakeTime:
         self.now += self.STEP
         return self.now
 
+    # the same clock through the other monotonic readers of `time` (best effort for refactors; floats are inexact)
+    monotonic_ns = perf_counter_ns
+
+    def perf_counter(self) -> float:
+        return self.perf_counter_ns() / 1e9
+
+    monotonic = perf_counter
+
     def __getattr__(self, name):  # anything else the module may want from `time`
         return getattr(_time, name)
 
 
 CLOCK = FakeTime()
-L.time = CLOCK  # the only `time` use in rbacx.rebac.local is time.perf_counter_ns()
+
+
+def _import_with_clock():
+    """Import rbacx.rebac.local with the clock injected whichever way the module binds it
+    (`import time` -> module attribute replaced; `from time import perf_counter_ns` -> bound during import)."""
+    names = ("perf_counter_ns", "monotonic_ns", "perf_counter", "monotonic")
+    saved = {n: getattr(_time, n) for n in names}
+    for n in names:
+        setattr(_time, n, getattr(CLOCK, n))
+    try:
+        sys.modules.pop("rbacx.rebac.local", None)
+        mod = importlib.import_module("rbacx.rebac.local")
+    finally:
+        for n, f in saved.items():
+            setattr(_time, n, f)
+    for attr, val in list(vars(mod).items()):
+        if val is _time:
+            setattr(mod, attr, CLOCK)
+    return mod
+
+
+L = _import_with_clock()
 
 NEVER_MS = 10 ** 9
 
@@ -128,7 +157,7 @@ def build(cfg: dict):
                                       max_nodes=cfg["max_nodes"], deadline_ms=cfg["deadline"]["ms"])
 
 
-def run_impl(cfg: dict, queries: list, batch: list | None, guard_s: int = 30):
+def run_impl(cfg: dict, queries: list, batch: list | None, guard_s: float = 20):
     """-> (answers, batch_answers); an answer is a bool, or {"raised": cls} / {"hang": s} / {"nonbool": repr}."""
     chk = build(cfg)
     ctx = cfg["context"]
@@ -167,10 +196,6 @@ def run_impl(cfg: dict, queries: list, batch: list | None, guard_s: int = 30):
     finally:
         signal.setitimer(signal.ITIMER_REAL, 0)
     return out, bout
-
-
-def as_bool(a):
-    return a if isinstance(a, bool) else None
 
 
 def driver_cmd(cfg: dict, queries: list, observed: list | None, batch: list | None, observed_batch) -> dict:
@@ -559,6 +584,12 @@ def run_cases(run: lib.Run, gens, cov: LineCov | None = None, cov_every: int = 0
             cmds.append(driver_cmd(cfg, queries, obs, batch, bobs))
             if len(cmds) >= 4000:
                 flush()
+            if any(isinstance(o, dict) and "hang" in o for o in obs) or (isinstance(bobs, dict) and "hang" in bobs):
+                run.notes.append(f"a call did not return within the hang guard at {label}: run cut short")
+                run.extra["hang"] = True
+                break
+        if run.extra.get("hang"):
+            break
     flush()
     run.extra["configurations"] = run.extra.get("configurations", 0) + n
 
@@ -570,14 +601,14 @@ def still_fails(cfg: dict, case: dict) -> bool:
     """does the implementation still contradict the spec on this (smaller) configuration?"""
     if "query" in case:
         q = tuple(case["query"])
-        obs, _ = run_impl(cfg, [q], None, guard_s=10)
+        obs, _ = run_impl(cfg, [q], None, guard_s=case.get("_guard", 10))
         if not isinstance(obs[0], bool):
             return True
         ans = proto.run_driver([driver_cmd(cfg, [q], obs, None, None)])[0]
         return ans["answers"][0]["spec_ok"] is False
     batch = [tuple(t) for t in case["batch"]]
     qs = list(dict.fromkeys(batch))
-    obs, bobs = run_impl(cfg, qs, batch, guard_s=10)
+    obs, bobs = run_impl(cfg, qs, batch, guard_s=case.get("_guard", 10))
     if not (isinstance(bobs, list) and all(isinstance(x, bool) for x in bobs)):
         return True
     idx = dict(zip(qs, obs))
@@ -589,6 +620,14 @@ def still_fails(cfg: dict, case: dict) -> bool:
 
 def shrink(case: dict) -> dict:
     cfg = json.loads(json.dumps(case["config"]))
+    hung = isinstance(case.get("impl"), dict) and "hang" in case["impl"]
+    if hung or (isinstance(case.get("impl_batch"), dict) and "hang" in case["impl_batch"]):
+        # every probe of a hanging input costs the guard: keep it short and shrink the store only
+        case = {**case, "_guard": 2}
+        cfg["tuples"] = lib.shrink_list(cfg["tuples"], lambda xs: _attempt({**cfg, "tuples": xs}, case), budget=12)
+        out = {**case, "config": cfg}
+        out.pop("_guard")
+        return out
 
     def attempt(cand: dict) -> bool:
         try:
@@ -615,18 +654,25 @@ def shrink(case: dict) -> dict:
     # re-observe on the shrunk input so that the replay file is self-contained
     if "query" in case:
         q = tuple(case["query"])
-        obs, _ = run_impl(cfg, [q], None, guard_s=10)
+        obs, _ = run_impl(cfg, [q], None, guard_s=case.get("_guard", 10))
         ans = proto.run_driver([driver_cmd(cfg, [q], obs, None, None)])[0]["answers"][0]
         out.update({"impl": obs[0], "model": ans["model"], "model_outcome": ans["outcome"], "derivable": ans["derivable"],
                     "limit_hit": ans["limit_hit"]})
     else:
         batch = [tuple(t) for t in out["batch"]]
         qs = list(dict.fromkeys(batch))
-        obs, bobs = run_impl(cfg, qs, batch, guard_s=10)
+        obs, bobs = run_impl(cfg, qs, batch, guard_s=case.get("_guard", 10))
         ans = proto.run_driver([driver_cmd(cfg, qs, obs, batch, bobs)])[0]
         out.update({"impl_batch": bobs, "impl_individual": [dict(zip(qs, obs))[t] for t in batch],
                     "model_batch": ans["batch"]["model"], "derivable": ans["batch"]["derivable"]})
     return out
+
+
+def _attempt(cfg: dict, case: dict) -> bool:
+    try:
+        return still_fails(cfg, case)
+    except Exception:  # noqa: BLE001
+        return False
 
 
 def attempt_batch(cfg: dict, case: dict, xs: list) -> bool:
